@@ -47,7 +47,7 @@ PROPS = {
               "thorough": [["store-C01", "--scenarios", "40", "--ops", "3000"]]},
         trusted=STORE_TRUST,
         statement="refinement of Add/Update/Remove/Get/IDs/Count to a finite map over all histories",
-        partial="proved so far: 7-code and span serialize/parse round trips for all inputs; the history-level refinement is tied by byte-exact correspondence + spec oracle on the implementation",
+        partial="proved (span-file level, unbounded): for every operation sequence of WriteRecord/RemoveRecord from any state satisfying the representation invariant, the invariant holds again and the stored streams are the fold of the map specification (C01.store_refines), ReadRecord answers the specification (read_is_spec), no step panics (step_total), a new file satisfies the invariant (new_file_is_rep); plus the 7-code and span round trips. Hypothesis FitsAll = the format's own limit (records and the grown file below 2^32 bytes; beyond it the 32-bit length field cannot describe a span). The Collection layer on top (id <-> decimal record id, metadata/vector streams, quantization) is tied by byte-exact correspondence + spec oracle on the implementation, not proved",
     ),
     "C02": dict(
         modules=["Syzgy.Props.C02"], ties=["Storage"],
@@ -55,7 +55,7 @@ PROPS = {
               "thorough": [["store-C02", "--scenarios", "40", "--ops", "2000"]]},
         trusted=STORE_TRUST,
         statement="open(file s) re-establishes the state for any options; reopen is a spec no-op",
-        partial="proved: scanFile ∘ render reconstructs index/free map/sequence number for every well-formed segment list (any zero tail)",
+        partial="proved: reopening (read-only or writable) any state reachable by any operation sequence changes no byte, re-establishes the representation invariant and yields the same store (C02.reopen_after_any_history); scanFile ∘ render reconstructs index/free map/sequence number for every well-formed segment list (any zero tail). The header record's options (Collection layer) are tied by correspondence",
     ),
     "C13": dict(
         modules=["Syzgy.Props.C13"], ties=["Query"],
@@ -133,7 +133,7 @@ PROPS = {
               "thorough": [["store-C09", "--scenarios", "40", "--ops", "3000"]]},
         trusted=STORE_TRUST,
         statement="chain grammar + free map = maximal free runs; growth ⇔ no run fits",
-        partial="proved: canonical form of the free map, markFree/getFreeRange keep it canonical with the exact coverage change, the file grows iff no free-map region fits. That the free map equals the maximal FREE runs of the file after every operation is evaluated on the implementation's bytes by an independent grammar walker after every operation (and byte-exactly against the model); the inductive proof over histories is not yet done. 'Steady-state churn is bounded' has no allocator-independent formulation and is monitored only",
+        partial="proved (unbounded, every operation sequence): the file is a gap-free chain of well-formed segments, no id is active twice and the free map equals the maximal FREE runs of the file, canonical with exact coverage (C09.chain_and_free_map_invariant); a write replaces a block of FREE segments by the new span (+ padding or one FREE remainder) of the same size or appends when nothing fits (write_places_span, grows_iff_nothing_fits); markFree/getFreeRange specs. The same is evaluated on the implementation's bytes by an independent grammar walker after every operation. 'Steady-state churn is bounded' has no allocator-independent formulation and is monitored only",
     ),
     "C08": dict(
         modules=["Syzgy.Props.C08"], ties=["Storage"],
